@@ -525,7 +525,18 @@ class DiffProperty:
     def run(self, tier, seed, replay=None):
         t0 = time.time()
         rng = random.Random(seed)
-        wd = os.path.join(OUT, "work", "%s_%s_%d" % (self.pid, tier, seed))
+        # one work directory per process: two runs of the same check at the same time (different trees under VERIF_REPO,
+        # another session) must not delete each other's files; leftovers of killed runs are swept after six hours
+        wroot = os.path.join(OUT, "work")
+        os.makedirs(wroot, exist_ok=True)
+        for x in os.listdir(wroot):
+            px = os.path.join(wroot, x)
+            try:
+                if time.time() - os.path.getmtime(px) > 6 * 3600:
+                    shutil.rmtree(px, ignore_errors=True)
+            except OSError:
+                pass
+        wd = os.path.join(wroot, "%s_%s_%d_%d" % (self.pid, tier, seed, os.getpid()))
         shutil.rmtree(wd, ignore_errors=True)
         os.makedirs(wd, exist_ok=True)
         os.makedirs(os.path.join(OUT, "replay"), exist_ok=True)
